@@ -337,6 +337,8 @@ def gen_api(seed, isa=None, flavour=None, force=None):
         if not loaded or k < (0.30 if flavour == "loads" else 0.10):
             bad = r.random() < (0.45 if flavour == "loads" else 0.2)
             ops.append(["load", gen_text(r, isa, p_bad=1.0 if bad else 0.0)])
+            if isa == "riscv" and flavour in ("loads", "lifecycle") and R.stream(seed, f"long-text-{len(ops)}").random() < 0.012:
+                ops[-1][1] = T.long_text(R.stream(seed, f"long-text-body-{len(ops)}"))  # far branches (own streams)
             loaded = loaded or not bad
             if flavour == "reload":
                 pass
@@ -654,6 +656,8 @@ def gen_pair(seed, pair="dc"):
     text = gen_text(r, "riscv", p_bad=0.05)
     if r.random() < 0.004:
         text = T.full_memory_text(r)
+    elif R.stream(seed, "long-text").random() < 0.008:
+        text = T.long_text(R.stream(seed, "long-text-body"))
     return {"mode": "pair", "pair": pair, "settings": settings, "ops": [["load", text]], "cap": r.choice([300, 1500])}
 
 
